@@ -11,6 +11,8 @@ import z3
 
 ROOT = os.path.dirname(os.path.dirname(os.path.abspath(__file__)))
 sys.path.insert(0, ROOT)
+if os.environ.get("HWV_REPO"):          # self-tests only: verify a scratch copy of the repository instead of /repo
+    sys.path.insert(0, os.environ["HWV_REPO"])
 from hwv.contract import Ctx, BindingError, Unsupported          # noqa: E402
 from hwv import prove, sim                                       # noqa: E402
 
@@ -205,7 +207,7 @@ def main(prop, tier, seed):
                 problems.append(("aux-timeout", prop, "cover/cosim tasks did not finish"))
             apool.terminate()
 
-    broken, undecided = [], []
+    broken, undecided, cover_fail = [], [], []
     for kind, name, msg in problems:
         (undecided if kind in ("binding", "unsupported") else broken).append(f"{kind}: {name}: {msg}")
     covers_total = covers_hit = 0
@@ -221,7 +223,7 @@ def main(prop, tier, seed):
             for n, t in val.items():
                 covers_total += 1
                 if t is None:
-                    broken.append(f"cover {c.name}/cover/{n} not reachable within {c.cover_depth or c.bmc_depth} steps (vacuity guard)")
+                    cover_fail.append(f"cover {c.name}/cover/{n} not reachable within {c.cover_depth or c.bmc_depth} steps (vacuity guard)")
                 else:
                     covers_hit += 1
         elif kind == "cosim":
@@ -273,7 +275,7 @@ def main(prop, tier, seed):
             samples.append({"obligation": r["name"], "kind": r["kind"], "clause": r["meta"].get("clause", ""),
                             "result": r["result"], "backend": r["backend"], "seconds": r["seconds"]})
     level = getattr(mod, "LEVEL", "proof")
-    clean = not (broken or undecided or unknown or violations or known_lines)
+    clean = not (broken or undecided or unknown or violations or known_lines or cover_fail)
     cov = {
         "obligations": n_ob, "discharged": n_dis,
         "checker_cmd": f"./check {prop} --tier {tier}",
@@ -316,7 +318,13 @@ def main(prop, tier, seed):
         for b in broken:
             print("CHECKER-BROKEN:", b)
         return 3
+    if not violations and cover_fail:
+        for b in cover_fail:
+            print("CHECKER-BROKEN:", b)
+        return 3
     if violations:
+        for b in cover_fail:
+            print("note:", b)
         for f, path, reproduced in violations:
             m = f.get("model") or {}
             print(f"  failed obligation {f['name']} ({f['backend']}, {f['seconds']}s)")
